@@ -13,11 +13,13 @@ from ..core import Case
 def plan(tier):
     n = 96 if tier == 'quick' else 2400
     return dict(sanitize={'extensions': ['compmech.integrate.integratev', 'compmech.conecyl.clpt.clpt_commons_bc1', 'compmech.conecyl.clpt.clpt_donnell_bc1_nonlinear', 'compmech.conecyl.fsdt.fsdt_commons_bcn', 'compmech.conecyl.fsdt.fsdt_donnell_bcn_nonlinear'], 'n_cases': 48}, n_cases=n, shards=16, min_nontrivial=n // 3,
-                min_tags={'geom:cone': n // 8, 'geom:cylinder': n // 8, 'rule:simps2d': n // 8, 'rule:trapz2d': n // 8, 'clause:threads': n // 4},
+                min_tags={'geom:cone': n // 8, 'geom:cylinder': n // 8, 'rule:simps2d': n // 8, 'rule:trapz2d': n // 8, 'clause:threads': n // 4,
+                          'state:zero': n // 12, 'imperfection:yes': n // 8, 'prescribed:none': n // 5, 'prescribed:shortening': n // 24, 'prescribed:twist': n // 24},
                 watchdog_s=2400 if tier == 'quick' else 14000,
                 rule='the 12 non-linear-capable shell models, cylinders and cones up to 45 deg, states with out-of-plane amplitudes 0.05..3 wall thicknesses, '
                      'B-coupled laminates, orders m1<=%d, m2,n2<=%d, grids with nx,nt >= 4x the highest wave number, trapezoid and Simpson rules, 1..8 '
-                     'integration threads; 4 random directions per state plus a full Jacobian for the known-finding classifier; non-trivial = state with '
+                     'integration threads; load factor 0.2..1.3 with prescribed shortening and/or twist (40%), initial imperfection coefficients with the three imperfection '
+                     'function families (30%), the zero free state (20%); 4 random directions per state plus a full Jacobian for the known-finding classifier; non-trivial = state with '
                      'non-zero harmonic amplitudes; distinct = hash of the description' % ((3, 2) if tier == 'quick' else (6, 4)),
                 assumptions=['fint is a polynomial of degree <= 4 of the amplitudes (5-point stencils at h and h/2 must agree)',
                              'identical nx, nt, ni_method for calc_kT and calc_fint: the discretised pair must be consistent exactly'])
@@ -40,11 +42,34 @@ def run_case(rng, tier, idx):
     rule = str(rng.choice(['trapz2d', 'simps2d']))
     threads = int(rng.integers(1, 9))
     d['ni_method'] = rule; d['ni_num_cores'] = threads
-    d['nx'] = int(4 * max(d['m1'], d['m2']) + 2 * rng.integers(1, 6))
-    d['nt'] = int(4 * d['n2'] + 2 * rng.integers(2, 8))
-    c = Case({'shell': d})
-    c.tag('model:' + model, 'geom:cone' if cone else 'geom:cylinder', 'rule:' + rule, 'threads:%d' % threads)
+    h = d.get('h') or d['plyt'] * len(d['stack'])
+    # load level and prescribed amplitudes (shortening / twist), initial imperfection, state kind
+    inc = 1.0
+    prescribed = bool(rng.random() < 0.4)
+    if prescribed:
+        inc = float(rng.uniform(0.2, 1.3))
+        which = str(rng.choice(['shortening', 'twist', 'both']))
+        if which in ('shortening', 'both'):
+            d['pdC'] = True; d['uTM'] = float(rng.choice([-1, 1]) * 10 ** rng.uniform(-2, 0) * h)
+        if which in ('twist', 'both'):
+            d['thetaTdeg'] = float(rng.choice([-1, 1]) * 10 ** rng.uniform(-2, 0) * np.degrees(h / d['r2']))
+    imperfect = bool(rng.random() < 0.3)
+    m0 = n0 = 0
+    if imperfect:
+        m0 = int(rng.integers(1, 4)); n0 = int(rng.integers(1, 4))
+        d['imp'] = {'m0': m0, 'n0': n0, 'funcnum': int(rng.choice([1, 2, 3])),
+                    'c0': [float(x) for x in rng.normal(size=2 * m0 * n0) * h * 10 ** rng.uniform(-1, 0)]}
+    zero_state = bool(rng.random() < 0.2)
+    d['inc'] = inc
+    d['nx'] = int(4 * max(d['m1'], d['m2'], m0) + 2 * rng.integers(1, 6))
+    d['nt'] = int(4 * max(d['n2'], n0) + 2 * rng.integers(2, 8))
+    c = Case({'shell': d, 'zero_state': zero_state})
+    c.tag('model:' + model, 'geom:cone' if cone else 'geom:cylinder', 'rule:' + rule, 'threads:%d' % threads,
+          'prescribed:' + (which if prescribed else 'none'), 'imperfection:' + ('yes' if imperfect else 'no'),
+          'state:' + ('zero' if zero_state else 'deformed'))
     cc = gen.build_shell(d)
+    if imperfect:
+        cc.c0 = np.array(d['imp']['c0']); cc.m0 = m0; cc.n0 = n0; cc.funcnum = d['imp']['funcnum']
     try:
         k0uu = cc.calc_k0(silent=True).toarray()
     except Exception as e:
@@ -78,27 +103,31 @@ def run_case(rng, tier, idx):
 
     def fint(cu):
         c.hit('calc_fint')
-        return np.asarray(cc.calc_fint(np.ascontiguousarray(cu), inc=1., return_u=True, silent=True), dtype=float)
+        return np.asarray(cc.calc_fint(np.ascontiguousarray(cu), inc=inc, return_u=True, silent=True), dtype=float)
 
     def kT(cu):
         c.hit('calc_kT')
-        return cc.calc_kT(np.ascontiguousarray(cu), inc=1., silent=True).toarray()
+        return cc.calc_kT(np.ascontiguousarray(cu), inc=inc, silent=True).toarray()
     try:
         f0 = fint(np.zeros(n))
     except Exception as e:
         return c.reject('%s in calc_fint: %s' % (type(e).__name__, str(e)[:100]))
-    c.expect('internal force of the undeformed perfect shell is zero', not f0.any(), 'max %r' % float(np.abs(f0).max()))
+    if not prescribed and not imperfect:
+        c.expect('internal force of the undeformed perfect shell is zero', not f0.any(), 'max %r' % float(np.abs(f0).max()))
     cu = rng.normal(size=n) * sc_free
+    if zero_state:
+        cu = np.zeros(n)
     cb = cu.copy()
     KT = kT(cu)
     c.expect('state vector not modified', np.array_equal(cb, cu))
     scK = np.abs(KT) + 1e-9 * np.abs(KT).max() + 1e-300
     c.judge('kT symmetric', float((np.abs(KT - KT.T) / scK).max()), 1e-12)
     # linear coefficient at the undeformed state
-    D0, S0 = stencil(fint, np.zeros(n), cu)
-    ref = k0uu @ cu
-    den = S0 + np.abs(k0uu) @ np.abs(cu); den = den + 1e-9 * den.max() + 1e-300
-    c.judge('fint reduces to k0*c for vanishing amplitudes', float((np.abs(D0 - ref) / den).max()), 1e-9)
+    if not prescribed and not imperfect and not zero_state:
+        D0, S0 = stencil(fint, np.zeros(n), cu)
+        ref = k0uu @ cu
+        den = S0 + np.abs(k0uu) @ np.abs(cu); den = den + 1e-9 * den.max() + 1e-300
+        c.judge('fint reduces to k0*c for vanishing amplitudes', float((np.abs(D0 - ref) / den).max()), 1e-9)
     # directional derivatives
     worst = 0.0
     dirs = []
@@ -116,7 +145,7 @@ def run_case(rng, tier, idx):
         dirs.append((dc, D, den))
     mech = None
     if worst > 1e-9:
-        mech = classify(c, cc, model, fint, kT, cu, KT, k0uu, sc_free, n)
+        mech = classify(c, cc, model, fint, kT, cu, KT, k0uu, sc_free, n, plain=not prescribed and not imperfect)
     for dc, D, den in dirs:
         c.judge('kT(c)*dc equals the derivative of fint along dc', float((np.abs(KT @ dc - D) / den).max()), 1e-9, mechanism=mech)
     # thread-count invariance (reassociation only) with another thread count
@@ -141,10 +170,12 @@ def run_case(rng, tier, idx):
 SUSPECT_MODELS = ('clpt_sanders_bc2', 'clpt_sanders_bc3', 'fsdt_donnell_bcn', 'fsdt_donnell_bc1')
 
 
-def classify(c, cc, model, fint, kT, cu, KT, k0uu, sc_free, n):
+def classify(c, cc, model, fint, kT, cu, KT, k0uu, sc_free, n, plain=True):
     """defect model of the recorded C17 findings (COARSE, model level): Delta(t) = kT(t c) - J(t c) vanishes at the
     undeformed state and is a polynomial of degree <= 2 in the scale t of the state, i.e. a first/second order term
-    of the assembled tangent disagrees with the corresponding term of fint.  Verified at t = 1, 2, 3."""
+    of the assembled tangent disagrees with the corresponding term of fint.  With prescribed amplitudes or an
+    imperfection (which do not scale with t) the same defect leaves a constant part: Delta(t) = d0 + t d1 + t^2 d2,
+    fitted at t = 0, 1, 2 and verified at t = 3."""
     if model not in SUSPECT_MODELS or n > 80:
         return None
 
@@ -155,16 +186,20 @@ def classify(c, cc, model, fint, kT, cu, KT, k0uu, sc_free, n):
             D, _ = stencil(fint, c_, e)
             J[:, j] = D / sc_free[j]
         return J
-    D1 = KT - jac(cu)
-    D2 = kT(2 * cu) - jac(2 * cu)
-    D3 = kT(3 * cu) - jac(3 * cu)
-    d1 = (4 * D1 - D2) / 2.
-    d2 = (D2 - 2 * D1) / 2.
-    pred3 = 3 * d1 + 9 * d2
+    v = cu if np.any(cu) else sc_free * np.cos(1.0 + np.arange(n))      # zero free state: deterministic direction
+    D0 = kT(0 * v) - jac(0 * v)
+    D1 = kT(v) - jac(v)
+    D2 = kT(2 * v) - jac(2 * v)
+    D3 = kT(3 * v) - jac(3 * v)
+    d2 = (D2 - 2 * D1 + D0) / 2.
+    d1 = D1 - D0 - d2
+    pred3 = D0 + 3 * d1 + 9 * d2
     n3 = np.linalg.norm(D3)
     noise = 1e-11 * np.linalg.norm(KT)      # round-off floor of the stencil Jacobians
     ok = np.linalg.norm(D3 - pred3) <= 1e-6 * (n3 + np.linalg.norm(D1)) + 20 * noise
-    J1 = KT - D1
+    if plain and np.linalg.norm(D0) > 20 * noise:
+        ok = False       # perfect shell without prescribed amplitudes: the recorded discrepancy vanishes at the undeformed state
+    J1 = kT(v) - D1
     c.info['tangent_discrepancy'] = {'first_order_part_rel_to_state_part_of_J': float(np.linalg.norm(d1) / (np.linalg.norm(J1 - k0uu) + 1e-300)),
                                      'second_order_part_rel': float(np.linalg.norm(d2) / (np.linalg.norm(J1 - k0uu) + 1e-300)),
                                      'polynomial_degree_le_2_confirmed_at_t3': bool(ok),
